@@ -399,38 +399,47 @@ Proof.
   cbn [app length Nat.ltb Nat.leb] in Hb. rewrite Hb, map_length. reflexivity.
 Qed.
 
-(* the two halves of a split are the spec's list cut at the median *)
-Theorem leaf_split_refines l k v : wsorted l -> has_key k l = false ->
-  let e := s_insert k v l in
-  split_leaf_entries l k v = (firstn (Nat.div (length e) 2) e, skipn (Nat.div (length e) 2) e).
+(* the entry list a split works on is the spec's list *)
+Theorem leaf_entries_refines l k v : wsorted l -> has_key k l = false -> leaf_entries l k v = s_insert k v l.
 Proof.
-  intros Hs Hk. unfold split_leaf_entries. pose proof (split_pos_absent l k Hs Hk) as P.
+  intros Hs Hk. unfold leaf_entries. pose proof (split_pos_absent l k Hs Hk) as P.
   unfold cell, key in *. rewrite P. cbn [snd].
-  assert (E : insert_at (length (lt_prefix k l)) (k, v) l = s_insert k v l).
-  { rewrite s_insert_decomp. rewrite (lt_prefix_from k l) at 2. apply insert_at_app. }
-  unfold cell, key in *. rewrite E. reflexivity.
+  rewrite s_insert_decomp. rewrite (lt_prefix_from k l) at 2. apply insert_at_app.
 Qed.
 
-(* separator = first key of the right half: strictly above the whole left half, at most every key
-   of the right half; the halves concatenate to the spec's list; the right half is not empty *)
-Theorem leaf_split_separator l k v : ssorted l -> has_key k l = false ->
-  let (a, b) := split_leaf_entries l k v in
-  a ++ b = s_insert k v l /\ b <> [] /\ ssorted a /\ ssorted b /\
+(* split_point: a result is inside the list and both halves fit *)
+Lemma dec_loop_le fl m : (dec_loop fl m <= m)%nat.
+Proof. induction m as [|m IH]; cbn [dec_loop]; [lia|]. destruct (fl (S m)); lia. Qed.
+Lemma inc_loop_lt fr len : forall fuel m, (m < len)%nat -> (m <= inc_loop fuel fr len m < len)%nat.
+Proof.
+  induction fuel as [|f IH]; intros m Hm; cbn [inc_loop]; [lia|].
+  destruct (Nat.ltb (S m) len && negb (fr m)) eqn:E; [|lia].
+  apply andb_prop in E. destruct E as [E _]. apply Nat.ltb_lt in E. specialize (IH (S m) E). lia.
+Qed.
+Lemma split_point_some fl fr len m : split_point fl fr len = Some m ->
+  (m < len)%nat /\ fl m = true /\ fr m = true.
+Proof.
+  unfold split_point. destruct (Nat.eqb len 0) eqn:E0; [discriminate|]. apply Nat.eqb_neq in E0.
+  set (m0 := dec_loop fl (Nat.div len 2)).
+  assert (H0 : (m0 < len)%nat) by (pose proof (dec_loop_le fl (Nat.div len 2)); subst m0; lia).
+  pose proof (inc_loop_lt fr len len m0 H0) as H1.
+  destruct (fl (inc_loop len fr len m0) && fr (inc_loop len fr len m0)) eqn:E; [|discriminate].
+  intro H. inversion H; subst. apply andb_prop in E. destruct E. repeat split; try assumption. lia.
+Qed.
+
+(* cutting a strictly sorted, non-empty list anywhere before its end: separator = first key of the
+   right part, strictly above the whole left part, at most every key of the right part *)
+Theorem split_separator (e : list cell) mid : ssorted e -> (mid < length e)%nat ->
+  let a := firstn mid e in let b := skipn mid e in
+  a ++ b = e /\ b <> [] /\ ssorted a /\ ssorted b /\
   Forall (fun c : cell => lex_lt (fst c) (fst (hd ([], 0) b))) a /\
   Forall (fun c : cell => lex_cmp (fst (hd ([], 0) b)) (fst c) <> Gt) b.
 Proof.
-  intros Hs Hk. rewrite (leaf_split_refines l k v (ssorted_wsorted l Hs) Hk). cbv zeta.
-  pose proof (ssorted_s_insert k v l Hs Hk) as He.
-  assert (Hlen : (1 <= length (s_insert k v l))%nat).
-  { rewrite s_insert_decomp, app_length. cbn. lia. }
-  revert He Hlen. generalize (s_insert k v l) as e. intros e He Hlen.
-  set (mid := Nat.div (length e) 2).
-  assert (Hmid : (mid < length e)%nat) by (subst mid; lia).
+  intros He Hmid. cbv zeta.
   pose proof (firstn_skipn mid e) as Hcat.
-  revert Hcat. generalize (firstn mid e) as a. intros a Hcat.
   assert (Hb : skipn mid e <> []).
   { intro Z. apply (f_equal (@length cell)) in Z. rewrite skipn_length in Z. cbn [length] in Z. lia. }
-  revert Hcat Hb. generalize (skipn mid e) as b. intros b Hcat Hb. subst e. clear mid Hmid Hlen.
+  revert Hcat Hb. generalize (firstn mid e) as a. generalize (skipn mid e) as b. intros b a Hcat Hb. subst e. clear mid Hmid.
   split; [reflexivity|]. split; [exact Hb|].
   induction a as [|x a IH].
   - cbn [app] in He. split; [cbn; trivial|]. split; [exact He|]. split; [constructor|].
@@ -440,6 +449,21 @@ Proof.
     apply Forall_app in H1. destruct H1 as [H1a H1b].
     split; [cbn [ssorted]; split; assumption|]. split; [exact Sb|]. split; [|exact Fb].
     constructor; [|exact Fa]. destruct b as [|c t]; [congruence|]. cbn [hd]. inversion H1b; subst. assumption.
+Qed.
+
+(* the leaf split of the code, in a leaf without equal keys: whatever split point is chosen, the halves are
+   the multimap's list cut there, both fit a page, the right half is not empty, separator bounds hold *)
+Theorem leaf_split_separator l k v mid : ssorted l -> has_key k l = false ->
+  leaf_split_point (leaf_entries l k v) = Some mid ->
+  let a := firstn mid (leaf_entries l k v) in let b := skipn mid (leaf_entries l k v) in
+  a ++ b = s_insert k v l /\ b <> [] /\ ssorted a /\ ssorted b /\ leaf_fits a = true /\ leaf_fits b = true /\
+  Forall (fun c : cell => lex_lt (fst c) (fst (hd ([], 0) b))) a /\
+  Forall (fun c : cell => lex_cmp (fst (hd ([], 0) b)) (fst c) <> Gt) b.
+Proof.
+  intros Hs Hk Hp. rewrite (leaf_entries_refines l k v (ssorted_wsorted l Hs) Hk) in *.
+  unfold leaf_split_point in Hp. apply split_point_some in Hp. destruct Hp as (Hm & Hl & Hr).
+  pose proof (split_separator (s_insert k v l) mid (ssorted_s_insert k v l Hs Hk) Hm) as H. cbv zeta in *.
+  destruct H as (H1 & H2 & H3 & H4 & H5 & H6). repeat split; assumption.
 Qed.
 
 (* ---------- the descent rule: internal_child_for_key on sorted separators ---------- *)
